@@ -18,12 +18,12 @@ pub open spec fn swap_settles(w: World, pair: Seq<char>, i0: AssetInfo, i1: Asse
 //%%rewrite #1 /to\.unwrap_or_else\(\|\| sender\.clone\(\)\)/ => vunwrap_or_else(to, || -> (x: Addr) ensures x == sender { sender.clone() }) ## R4: Option::unwrap_or_else -> verified helper; closure annotated with its own (verified) ensures
 //%%sig
     ensures
-        /*[C02,C01,C12 swap.settles]*/ r is Ok ==> old(deps.storage).pair_info is Some && old(deps.storage).commission is Some && ({
+        /*[C02,C01,C03,C12 swap.settles]*/ r is Ok ==> old(deps.storage).pair_info is Some && old(deps.storage).commission is Some && ({
             let pi = old(deps.storage).pair_info->Some_0;
             exists|i0: AssetInfo, i1: AssetInfo| #![trigger raw_of(i0, pi.asset_infos[0]), raw_of(i1, pi.asset_infos[1])] raw_of(i0, pi.asset_infos[0]) && raw_of(i1, pi.asset_infos[1])
                 && swap_settles(deps.querier.world(), env.contract.address.0@, i0, i1, old(deps.storage).commission->Some_0.0.v(), offer_asset,
                     (if to is Some { to->Some_0.0@ } else { sender.0@ }), r->Ok_0.msgs()) }),
-        /*[C09,C02 swap.native-funds]*/ r is Ok ==> (offer_asset.info matches AssetInfo::NativeToken { denom } ==> offer_asset.amount.0 as nat == attached(info.funds@, denom@)),
+        /*[C09,C02,C01,C03 swap.native-funds]*/ r is Ok ==> (offer_asset.info matches AssetInfo::NativeToken { denom } ==> offer_asset.amount.0 as nat == attached(info.funds@, denom@)),
         /*[C14,C07 swap.no-write]*/ *final(deps.storage) == *old(deps.storage),
 //%%insert before #1 /Ok\(Response::new\(\)\.add_messages\(messages\)/
     proof {
@@ -77,7 +77,7 @@ pub open spec fn withdraw_pays(w: World, pair: Seq<char>, pi: PairInfoRaw, i0: A
 }
 
 //%fn contracts/halo-pair/src/contract.rs | - | withdraw_liquidity
-//%%rewrite #1 /pools\s*\.iter\(\)\s*\.map\(\|a\| ((?s:.*?))\)\s*\.collect\(\)/ => vmap2(&pools, |a: &Asset| -> (o: Asset) requires mul_req_ud(a.amount, share_ratio) ensures o.info == a.info && mul_ens_ud(a.amount, share_ratio, o.amount) { \1 }) ## R4: iter().map().collect() over [Asset;2] -> verified helper vmap2; closure annotated with its own (verified) contract
+//%%rewrite #1 /pools\s*\.iter\(\)\s*\.map\(\|a\| ((?s:.*?))\)\s*\.collect\(\)/ => vmap2(&pools, |a: &Asset| -> (o: Asset) ensures /*[C04,C03 withdraw.refund-closure]*/ o.info == a.info && total_share.0 != 0 && wd_refund(a.amount.0 as nat, amount.0 as nat, total_share.0 as nat) < p128() && o.amount.0 as nat == wd_refund(a.amount.0 as nat, amount.0 as nat, total_share.0 as nat) { \1 }) ## R4: iter().map().collect() over [Asset;2] -> verified helper vmap2; the closure is annotated with the refund formula of C04 and verified against its real body
 //%%sig
     ensures
         /*[C04,C03,C07 withdraw.pays]*/ r is Ok ==> old(deps.storage).pair_info is Some && ({
@@ -107,15 +107,15 @@ pub open spec fn tok_is(i: AssetInfo, who: Seq<char>) -> bool { i matches AssetI
 //%%rewrite #1 /Addr::unchecked\(cw20_msg\.sender\)/ => addr_unchecked_string(cw20_msg.sender) ## shim: Addr::unchecked(String) has the argument as its text
 //%%sig
     ensures
-        /*[C02,C14 hook.swap.amount]*/ decode::<Cw20HookMsg>(cw20_msg.msg) matches Ok(Cw20HookMsg::Swap { offer_asset, belief_price, max_spread, to }) ==> r is Ok ==>
+        /*[C02,C01,C03,C14 hook.swap.amount]*/ decode::<Cw20HookMsg>(cw20_msg.msg) matches Ok(Cw20HookMsg::Swap { offer_asset, belief_price, max_spread, to }) ==> r is Ok ==>
             offer_asset.amount == cw20_msg.amount,
         /*[C02,C14 hook.swap.sender-is-pool-token]*/ decode::<Cw20HookMsg>(cw20_msg.msg) matches Ok(Cw20HookMsg::Swap { offer_asset, belief_price, max_spread, to }) ==> r is Ok ==>
             old(deps.storage).pair_info is Some && exists|i0: AssetInfo, i1: AssetInfo| #![trigger raw_of(i0, old(deps.storage).pair_info->Some_0.asset_infos[0]), raw_of(i1, old(deps.storage).pair_info->Some_0.asset_infos[1])]
                 raw_of(i0, old(deps.storage).pair_info->Some_0.asset_infos[0]) && raw_of(i1, old(deps.storage).pair_info->Some_0.asset_infos[1])
                 && (tok_is(i0, info.sender.0@) || tok_is(i1, info.sender.0@)),
-        /*[C02,C03 hook.swap.named-asset-is-sender]*/ decode::<Cw20HookMsg>(cw20_msg.msg) matches Ok(Cw20HookMsg::Swap { offer_asset, belief_price, max_spread, to }) ==> r is Ok ==>
+        /*[C02,C01,C03 hook.swap.named-asset-is-sender]*/ decode::<Cw20HookMsg>(cw20_msg.msg) matches Ok(Cw20HookMsg::Swap { offer_asset, belief_price, max_spread, to }) ==> r is Ok ==>
             (offer_asset.info matches AssetInfo::Token { contract_addr } && contract_addr@ == info.sender.0@),
-        /*[C02,C01,C12 hook.swap.settles]*/ decode::<Cw20HookMsg>(cw20_msg.msg) matches Ok(Cw20HookMsg::Swap { offer_asset, belief_price, max_spread, to }) ==> r is Ok ==>
+        /*[C02,C01,C03,C12 hook.swap.settles]*/ decode::<Cw20HookMsg>(cw20_msg.msg) matches Ok(Cw20HookMsg::Swap { offer_asset, belief_price, max_spread, to }) ==> r is Ok ==>
             old(deps.storage).pair_info is Some && old(deps.storage).commission is Some && ({
                 let pi = old(deps.storage).pair_info->Some_0;
                 exists|i0: AssetInfo, i1: AssetInfo| #![trigger raw_of(i0, pi.asset_infos[0]), raw_of(i1, pi.asset_infos[1])] raw_of(i0, pi.asset_infos[0]) && raw_of(i1, pi.asset_infos[1])
@@ -139,10 +139,10 @@ pub open spec fn tok_is(i: AssetInfo, who: Seq<char>) -> bool { i matches AssetI
 //%fn contracts/halo-pair/src/contract.rs | - | execute
 //%%sig
     ensures
-        /*[C02 exec.swap.native-only]*/ msg matches ExecuteMsg::Swap { offer_asset, belief_price, max_spread, to } ==> r is Ok ==> offer_asset.info is NativeToken,
-        /*[C02,C09 exec.swap.native-funds]*/ msg matches ExecuteMsg::Swap { offer_asset, belief_price, max_spread, to } ==> r is Ok ==>
+        /*[C02,C01,C03 exec.swap.native-only]*/ msg matches ExecuteMsg::Swap { offer_asset, belief_price, max_spread, to } ==> r is Ok ==> offer_asset.info is NativeToken,
+        /*[C02,C09,C01,C03 exec.swap.native-funds]*/ msg matches ExecuteMsg::Swap { offer_asset, belief_price, max_spread, to } ==> r is Ok ==>
             (offer_asset.info matches AssetInfo::NativeToken { denom } ==> offer_asset.amount.0 as nat == attached(info.funds@, denom@)),
-        /*[C02,C01,C12 exec.swap.settles]*/ msg matches ExecuteMsg::Swap { offer_asset, belief_price, max_spread, to } ==> r is Ok ==>
+        /*[C02,C01,C03,C12 exec.swap.settles]*/ msg matches ExecuteMsg::Swap { offer_asset, belief_price, max_spread, to } ==> r is Ok ==>
             old(deps.storage).pair_info is Some && old(deps.storage).commission is Some && ({
                 let pi = old(deps.storage).pair_info->Some_0;
                 exists|i0: AssetInfo, i1: AssetInfo| #![trigger raw_of(i0, pi.asset_infos[0]), raw_of(i1, pi.asset_infos[1])] raw_of(i0, pi.asset_infos[0]) && raw_of(i1, pi.asset_infos[1])
